@@ -19,6 +19,13 @@ SPEC = {
             'per observation (4 taken from the encoded sizes met on the cut path +-1, one extreme, one at the full size); the '
             'harness finds a cut sequence (Go map order is free after the first cut) that explains the answer and the model replays it '
             'with the real encoded sizes. step: truncateLastCommit / truncateChain on a present, empty, absent or report-less chain. '
+            'observation: execute.Plugin.Observation in the GetMessages phase (real plugin, scripted reader, pending reports of 1..3 chains, '
+            'costly flags on a third of the messages; contract discovery processor disabled / enabled with 0, 3 or ~300 discovered source '
+            'chains and contracts initialised). Classes: far below, far above, one report too big, and three calibrated by padding one message: '
+            'the observation WITHOUT the discovery data ends less than the discovery data\'s size below the limit (the whole one is above), '
+            'just above it, or the whole observation ends 0..2 bytes below it. The limit is the package constant maxObservationLength = 1 MiB '
+            '(what ReportingPluginInfo advertises; it cannot be lowered through the constructor, so every case encodes ~1 MiB several times: '
+            '40 cases in the quick tier). Executable property: len(bytes returned) <= the limit and the decoded observation is consistent. '
             'non-trivial = at least one cut (trunc), chain with reports (step); distinct by full input',
     'trusted': ['encoded size: the real exectypes.Observation.Encode length, measured by the harness on its own projection of the '
                 'original observation for every observation on the witness path (the theorems hold for any size function)',
@@ -32,5 +39,6 @@ SPEC = {
     'level_note': 'Trusted: Coq kernel, hand-written model, differential harness (incl. its size projection and witness-path search). No axioms. '
                   'Not covered: the GetCommitReports and Filter phases do not truncate (C17_other_phases_partial, stated only); '
                   'Plugin.Observation is driven end to end in the GetMessages phase only (sink C17_observation, limit = the package constant maxObservationLength).',
-    'modelled': 'truncateObservation, truncateLastCommit, truncateChain, removeCostlyMessages; Encode is an input (size table)',
+    'modelled': 'truncateObservation, truncateLastCommit, truncateChain, removeCostlyMessages; Encode is an input (size table). In the '
+                'Plugin.Observation part `size` is the encoded size of the WHOLE emitted observation (discovery data included): C17_fits is read with that size',
 }
